@@ -70,6 +70,13 @@ Proof. unfold call_result. destruct err; [reflexivity|]. destruct ack; reflexivi
 Lemma notify_all_notify s sf fn v : forall o, In o (notify_subscribers s sf fn v) -> is_notify o = true.
 Proof. unfold notify_subscribers. intros o H. apply in_map_iff in H. destruct H as [x [<- _]]. reflexivity. Qed.
 
+Lemma strip_complete p d x : strip (complete_one p (Some d) x) = complete_entry p d (strip x).
+Proof.
+  unfold complete_one, complete_entry, complete_cli, strip. simpl.
+  destruct (N.eqb (e_ski x) p); simpl; [|reflexivity].
+  destruct (eqb_faddr (e_cli x) (nm_addr None)); reflexivity.
+Qed.
+
 (* ---------- the invariant ---------- *)
 Record Inv (s : st) (m : mst) : Prop := {
   inv_w : w m = s;
@@ -194,7 +201,7 @@ Qed.
 
 Definition is_default (o : op) : bool :=
   match o with
-  | AddLocalEntity _ | AddLocalFeature _ _ _ | AddFunction _ _ _ _ _ | DiscoveryReply _ _
+  | AddLocalEntity _ | AddLocalFeature _ _ _ | AddFunction _ _ _ _ _
   | BindCall _ _ _ _ | BindDelete _ _ _ _ | ListBinds _ | LocalSubscribe _ _ _ | LocalBind _ _ _
   | HasLocalSub _ _ _ | HasLocalBind _ _ _ | ReadData _ _ _ | Resolve _ _ => true
   | _ => false
@@ -212,15 +219,6 @@ Proof.
   - (* AddLocalEntity *) simpl. destruct (existsb _ (lents s)); split; try reflexivity; split; reflexivity.
   - (* AddLocalFeature *) simpl. destruct (find _ (lents s)); split; try reflexivity; split; reflexivity.
   - (* AddFunction *) simpl. split; [reflexivity | split; reflexivity].
-  - (* DiscoveryReply *)
-    cbn [step]. unfold with_source. destruct (find_peer s p) as [pe|] eqn:Ep; [|split; [reflexivity | split; reflexivity]].
-    destruct (remote_feature pe (nm_addr None)); [|split; [reflexivity | split; reflexivity]].
-    destruct (add_entities _ m (dm_ents m)) as [pe1 created].
-    assert (Hq : quiet (OEvent EvDevice ChAdd p None None None :: map (ev_entity ChAdd pe1) created) = []).
-    { apply quiet_ok; simpl.
-      - apply (quiet_added pe1 created).
-      - induction created as [|x l IH]; simpl; [reflexivity | exact IH]. }
-    destruct (p_addr pe1); (split; [exact Hq|]); split; reflexivity.
   - (* BindCall *) cbn [step]. apply registry_call_bind. intros. apply add_binding_quiet.
   - (* BindDelete *) cbn [step]. apply registry_call_bind. intros. apply remove_binding_quiet.
   - (* ListBinds *) cbn [step]. split; [|split; reflexivity].
@@ -354,6 +352,17 @@ Proof.
     destruct Hsubs as [Hs Hq]. rewrite Hq. split; [reflexivity|].
     apply (Inv_filter s m (Connect p) (fun x => negb (N.eqb (e_ski x) p)) (fun x => negb (N.eqb (s_ski x) p)) I);
       [intros x; reflexivity | exact Hs].
+  - (* DiscoveryReply *)
+    cbn [mon]. unfold advance. rewrite Hw.
+    destruct (reply_step_spec s p m0 Hok) as [_ [Hs [_ [_ [_ [Hq _]]]]]].
+    rewrite Hq. split; [reflexivity|].
+    rewrite nm_completion_model.
+    constructor; cbn [w reg]; [reflexivity | | exact (sinv_step s (DiscoveryReply p m0) (inv_s _ _ I))].
+    rewrite Hs, (inv_reg _ _ I). unfold drop, completed.
+    rewrite <- (filter_abs (fun x => negb (N.eqb (s_ski x) p && existsb (eqb_eaddr (fa_ent (s_cli x))) (gone_of (snd (step s (DiscoveryReply p m0)))))))
+      by (intros x; reflexivity).
+    f_equal. destruct (model_completion s p m0) as [d|]; [|reflexivity].
+    unfold complete_nm_addr, abs. rewrite !map_map. apply map_ext. intros x. symmetry. apply strip_complete.
   - (* DiscoveryNotify *)
     cbn [mon]. unfold advance. rewrite Hw.
     assert (H : existsb is_notify (snd (step s (DiscoveryNotify p ctr ack m0))) = false /\
